@@ -70,7 +70,7 @@ class CountedRenamer(CachedIdentityMapper):
 
     def map_variable(self, expr, *a, **k):
         self._k(expr, a, k)
-        pre = a[0] if a else ""
+        pre = (a[0] if a else "") + k.get("pre2", "")
         suf = k.get("suffix", "")
         return p.Variable(pre + expr.name + suf) if (pre or suf) else expr
 
@@ -89,7 +89,7 @@ class CountedRenamer(CachedIdentityMapper):
 
 class PlainRenamer(IdentityMapper):
     def map_variable(self, expr, *a, **k):
-        pre = a[0] if a else ""
+        pre = (a[0] if a else "") + k.get("pre2", "")
         suf = k.get("suffix", "")
         return p.Variable(pre + expr.name + suf) if (pre or suf) else expr
 
@@ -563,7 +563,10 @@ def workload(ctx):
             tg.pool = {"int": [], "num": [], "bool": []}
             pool = [g.gen(rng.randint(0, 3)) for _ in range(4)] + \
                    [tg.int(rng.randint(1, 3)) for _ in range(3)] + \
-                   [4, 4.0, True, (4, V["x"]), (V["y"], 4.0), p.Call(V["f"], (4, 4.0, True))]
+                   [4, 4.0, True, (4, V["x"]), (V["y"], 4.0), p.Call(V["f"], (4, 4.0, True)),
+                    # ... and the numpy kinds that are == to them (np.float64 IS a float subclass)
+                    np.float64(4.0), np.int64(4), np.float32(4.0), 1, np.bool_(True), 1.0,
+                    (np.float64(4.0), V["x"]), p.Call(V["f"], (np.float64(4.0), 4.0, np.int64(4)))]
             pool += [G.deep_rebuild(pool[0]), pool[1]]
             if i % 4 == 1:      # wrappers that differ only in their prefix (distinct nodes)
                 child = rng.choice([pool[4], p.Sum((V["x"], V["y"])), p.Product((2, V["z"]))])
@@ -586,7 +589,9 @@ def workload(ctx):
             if has_twins(*pool):
                 ctx.count("pools_with_typed_twins")
             hist = [(rng.randrange(len(pool)), rng.choice(ARGT),
-                     rng.choice([{}, {}, {"suffix": "_s"}, {"suffix": "_t"}]))
+                     # (the SAME two keywords in both orders: one key, not two)
+                     rng.choice([{}, {}, {"suffix": "_s"}, {"suffix": "_t"},
+                                 {"suffix": "_s", "pre2": "q"}, {"pre2": "q", "suffix": "_s"}]))
                     for _ in range(rng.randint(2, 30))]
             flags = dict(include_subscripts=rng.random() < .5, include_lookups=rng.random() < .5,
                          include_calls=rng.choice([True, False, "descend_args"]),
